@@ -78,10 +78,42 @@ T = {
              needs="see seeded/C04", caught={"C20": "quick after strengthening (114 cases)"}, missed={"C20-before": "see seeded/C04"}, strengthened="see seeded/C04"),
 }
 
+# second round: agents were told what the first round had produced for the property and asked for something far from it
+T.update({
+ "C02-r2": dict(file="internal/decoder/jitdec/pools.go", what="freeStack no longer resets the depth of the pooled decoder stack (also produced independently by the round-2 agent given C09)",
+             needs="history only: a few hundred decodes that abort with a syntax error inside open containers of a typed destination, no collection emptying the pool in between; then valid documents are rejected with 'unsupported value' (nesting budget used up)",
+             caught={"C09": "quick after strengthening (14 cases)"}, missed={"C02": "quick (cases are single documents)", "C01": "quick", "C07": "quick", "C09-before": "preludes had no burst of rejected documents and the collector emptied the pools"},
+             strengthened="C09 hostile prelude bit 64 (900 rounds of five documents rejected inside nested typed destinations) and worker environments GOGC=off / GOGC=off+optdec"),
+ "C03-r2": dict(file="internal/encoder/alg/sort.go", what="heapSort (fallback of the map key sorter) never sifts the root while building the heap",
+             needs="SortMapKeys, more than 11 keys in one partition sharing a prefix of at least 2*bitlen(n) bytes (timestamps, common_prefix_NN, int64 keys 1700000000000+i)",
+             caught={"C03": "quick after strengthening (~440 cases)", "C18": "quick after strengthening", "C12": "quick after strengthening (order depends on map iteration)"}, missed={"C03-before": "generated maps had at most 4 entries", "C04": "quick (round trip is order-insensitive)"},
+             strengthened="value generator: maps of 5..16 and 17..70 entries, half of them with clustered keys (long common prefix and short suffixes; consecutive integers around a large base)"),
+ "C04-r2": dict(file="internal/encoder/compiler.go", what="omitempty emptiness test of uint16 fields emits the 1-byte zero test",
+             needs="uint16 field tagged omitempty holding a non-zero multiple of 256",
+             caught={"C04": "quick (~420 cases)", "C03": "quick (~3200 cases)"}, missed={"C12": "quick (shared by both back ends)"}, strengthened=""),
+ "C05-r2": dict(file="internal/decoder/jitdec/assembler_regabi_amd64.go", what="_asm_OP_unquote guarantees one remaining byte but inspects two",
+             needs="string field tagged ,string; input cut exactly after the backslash of the inner string; the byte after the input decides the result",
+             caught={"C05": "quick after strengthening (several shards)"}, missed={"C05-before": "1 shard of 8: typed entries only saw generic documents whose keys never matched the destination", "C07": "quick"},
+             strengthened="C05 generates documents for the destination type of typed entries (gen.DocFor) and cuts them anywhere; entries for cat.StrOpt (both decoders), cat.Omit, cat.Wide. By-catch: a genuine one-byte over-read for quoted json.Number at end of input, repaired in d20d58c"),
+ "C06-r2": dict(file="ast/search.go", what="Searcher.getByPath skips the CopyReturn copy when the located value spans the whole input",
+             needs="sonic.Get / GetCopyFromString with an empty path on a document without surrounding white space, and the caller reusing its buffer",
+             caught={"C06": "quick (8 cases)"}, missed={"C14": "quick (does not reuse the input)"}, strengthened=""),
+ "C07-r2": dict(file="utf8/utf8.go", what="CorrectWith no longer resets the stack pointer of the pooled state machine it borrows",
+             needs="a validating call that rejects a document inside two or more containers, then a ValidateString repair of invalid UTF-8 in the same process",
+             caught={"C07": "quick (persistent worker; panic)", "C02": "quick (~900 cases)", "C09": "quick (prelude + probe)"}, missed={"C20": "quick"}, strengthened=""),
+ "C08-r2": dict(file="internal/resolver/resolver.go", what="ResolveStruct inserts into the shared field cache under the read lock",
+             needs="two compilations meeting uncached struct types at the same time (first Marshal next to first Unmarshal, concurrent Pretouch)",
+             caught={"C08": "quick (fatal error: concurrent map writes, first shards)"}, missed={}, strengthened=""),
+ "C10-r2": dict(file="internal/encoder/compiler.go", what="OP_is_zero receives a pointer to a fresh heap copy of the field metadata; the JIT burns it into machine code where the collector cannot see it",
+             needs="field tagged omitzero, amd64 JIT encoder; after the first Marshal a collection and reuse of the freed 80-byte slot, then another Marshal of the type",
+             caught={"C10": "quick after strengthening (3 cases)"}, missed={"C10-before": "no omitzero field in the stressed type, churn stopped at 64-byte objects", "C03": "quick (omitzero is outside the go1.23 encoding/json oracle)", "C09": "quick"},
+             strengthened="cat.SBox gets omitzero fields (kept non-zero); churn covers pointer-carrying size classes up to 128 bytes"),
+})
+
 def main():
     ids = sys.argv[1:] or sorted(T)
     for i in ids:
-        src = f"/tmp/wt-{i}/SEEDED"
+        src = f"/tmp/wt2-{i[:3]}/SEEDED" if i.endswith("-r2") else f"/tmp/wt-{i}/SEEDED"
         dst = f"/verif/seeded/{i}"
         os.makedirs(dst, exist_ok=True)
         if os.path.isdir(src):
@@ -97,7 +129,8 @@ def main():
             tail = []
         m = dict(T[i])
         meta = {
-            "property": i,
+            "property": i[:3],
+            "round": 2 if i.endswith("-r2") else 1,
             "files_changed": m["file"],
             "change": m["what"],
             "needs_to_manifest": m["needs"],
